@@ -362,7 +362,7 @@ macro_rules! unsigned_divmod {
 
 // @unit id=ops.divmod.sint.sint props=C01,C02,C03 tier=quick kind=proof fn=apply_binary,numeric_arith,signed_from_i128
 signed_divmod!(ops_divmod_sint_sint, 0, 0);
-// @unit id=ops.divmod.int.int props=C01,C02,C03 tier=quick kind=proof timeout=600 fn=apply_binary,numeric_arith,signed_from_i128
+// @unit id=ops.divmod.int.int props=C01,C02,C03 tier=thorough kind=proof timeout=600 fn=apply_binary,numeric_arith,signed_from_i128
 signed_divmod!(ops_divmod_int_int, 1, 1);
 // @unit id=ops.divmod.dint.dint props=C01,C02,C03 tier=thorough kind=proof timeout=1800 fn=apply_binary,numeric_arith,signed_from_i128
 signed_divmod!(ops_divmod_dint_dint, 2, 2);
@@ -370,7 +370,7 @@ signed_divmod!(ops_divmod_dint_dint, 2, 2);
 signed_divmod!(ops_divmod_int_sint, 1, 0);
 // @unit id=ops.divmod.usint.usint props=C01,C02,C03 tier=quick kind=proof fn=apply_binary,numeric_arith,unsigned_from_u128
 unsigned_divmod!(ops_divmod_usint_usint, 0, 0);
-// @unit id=ops.divmod.uint.uint props=C01,C02,C03 tier=quick kind=proof timeout=600 fn=apply_binary,numeric_arith,unsigned_from_u128
+// @unit id=ops.divmod.uint.uint props=C01,C02,C03 tier=thorough kind=proof timeout=600 fn=apply_binary,numeric_arith,unsigned_from_u128
 unsigned_divmod!(ops_divmod_uint_uint, 1, 1);
 // @unit id=ops.divmod.udint.udint props=C01,C02,C03 tier=thorough kind=proof timeout=1800 fn=apply_binary,numeric_arith,unsigned_from_u128
 unsigned_divmod!(ops_divmod_udint_udint, 2, 2);
@@ -628,34 +628,27 @@ fn ops_time_add_via_apply_binary() {
     assert!(ok, "apply_binary returns time_arith's result for TIME + TIME");
 }
 
-// duration_to_ticks under the default profile (1 tick = 1 ms): truncation toward zero, stated
-// relationally (no divider in the oracle):  t = k * 10^6 + r,  |r| < 10^6,  r = 0 or sign(r) = sign(t).
-// @unit id=ops.duration_to_ticks props=C01,C02 tier=quick kind=proof timeout=1200 fn=duration_to_ticks
-#[kani::proof]
-fn ops_duration_to_ticks() {
-    let t: i64 = kani::any();
-    let r = duration_to_ticks(Duration::from_nanos(t), &profile());
-    let ok = match &r {
-        Ok(k) => trunc_decomp_ok(t as i128, 1_000_000, *k as i128, t as i128 - *k as i128 * 1_000_000),
-        Err(_) => false,
-    };
-    kani::cover!(t < -1_000_000);
-    kani::cover!(t > 1_999_999);
-    std::mem::forget(r);
-    assert!(ok, "TIME -> ticks truncates toward zero and never fails under the default profile");
+// duration_to_ticks: CBMC cannot finish its 128-bit divider (no result in 35 min), so its contract --
+// truncation toward zero under a positive resolution, never a fault -- is proved by the Verus unit
+// ops.ticks on the verbatim function; the harnesses below use that contract as a stub.
+thread_local! {
+    /// the tick count chosen by the contract stub in the current harness execution
+    static LAST_TICKS: std::cell::Cell<i64> = const { std::cell::Cell::new(0) };
 }
 
 /// Stub that stands for duration_to_ticks in the callers' harnesses: any result allowed by the
-/// contract just proved (ops.duration_to_ticks) -- modular reasoning, the callers see only the contract.
+/// contract just proved (ops.duration_to_ticks) -- modular reasoning, the callers see only the
+/// contract. The chosen value is remembered so the harness can state the caller's postcondition
+/// in terms of it (no second witness, no uniqueness argument for the solver).
 fn duration_to_ticks_contract(time: Duration, _profile: &DateTimeProfile) -> Result<i64, RuntimeError> {
     let t = time.as_nanos();
     let k: i64 = kani::any();
     kani::assume(trunc_decomp_ok(t as i128, 1_000_000, k as i128, t as i128 - k as i128 * 1_000_000));
+    LAST_TICKS.with(|c| c.set(k));
     Ok(k)
 }
 
-/// point (ticks) +/- TIME: exact in ticks with the duration truncated to whole ticks. The tick count
-/// k is the assumed witness of the same decomposition (it exists and is unique).
+/// point (ticks) +/- TIME: exact in ticks, with k = duration_to_ticks(TIME) whole ticks.
 macro_rules! point_with_time {
     ($name:ident, $mkp:expr, $var:ident, $op:ident, $swap:expr, |$a:ident, $k:ident| $e:expr) => {
         #[kani::proof]
@@ -663,11 +656,9 @@ macro_rules! point_with_time {
         fn $name() {
             let $a: i64 = kani::any();
             let t: i64 = kani::any();
-            let kw: i64 = kani::any();
-            kani::assume(trunc_decomp_ok(t as i128, 1_000_000, kw as i128, t as i128 - kw as i128 * 1_000_000));
-            let $k = kw as i128;
             let (l, rr) = if $swap { (mk_time(t), $mkp($a)) } else { ($mkp($a), mk_time(t)) };
             let r: TR = time_arith(BinaryOp::$op, &l, &rr, &profile());
+            let $k = LAST_TICKS.with(|c| c.get()) as i128;
             let e: i128 = $e;
             let ok = if fits_i64(e) {
                 matches!(&r, Some(Ok(Value::$var(v))) if v.ticks() as i128 == e)
@@ -782,7 +773,7 @@ macro_rules! time_mul_int {
         }
     };
 }
-// @unit id=ops.time.mul.int props=C01,C02,C03 tier=quick kind=proof timeout=600 fn=time_arith,time_scale,scale_duration,numeric_factor
+// @unit id=ops.time.mul.int props=C01,C02,C03 tier=thorough kind=proof timeout=600 fn=time_arith,time_scale,scale_duration,numeric_factor
 time_mul_int!(ops_time_mul_int, Int, i16, false);
 // @unit id=ops.int.mul.time props=C01,C02,C03 tier=thorough kind=proof timeout=600 fn=time_arith,time_scale,scale_duration,numeric_factor
 time_mul_int!(ops_int_mul_time, Int, i16, true);
